@@ -61,3 +61,35 @@ Example C06_example :
   /\ map_res erase (ref_scan ex_search 10 (L"abcdef")) = scan ex_search 10 (L"abcdef").
 Proof. vm_compute. split; reflexivity. Qed.
 Print Assumptions C06_example.
+
+(* BEGIN shipped-registry instances *)
+(* THE SHIPPED SCANNER (Proofs/DefaultEngine.v): the theorems above hold for any registry with in-bounds hits; these are the same statements about the model of Multidecoder().scan itself - the regenerated registry of all 30 decoders and the keyword searchers (scan_default), the registry with find_powershell_strings replaced by any conforming decoder ps (scan_default_with ... ps; F6 is the reason it does not conform itself), and the registry with the shell module excluded (scan_noshell) - for every input, depth limit, keyword directory and tool oracle (pe_size non-negative). *)
+From MD Require Import Model.EngineR Model.Default Model.Flatten Proofs.DefaultWf Proofs.DefaultEngine Proofs.ChainProofs.
+
+Theorem C06_shipped_refines : forall pe_size : Base.bytes -> BinNums.Z, (forall b : Base.bytes, BinInt.Z.le BinNums.Z0 (pe_size b)) -> forall (xortool : Base.bytes -> list Base.bytes) (extra : Base.label -> option (Base.bytes -> Base.res (list Node.node))) (ps : Base.bytes -> Base.res (list Node.node)) (kwdir : Registry.dtree) (depth : BinNums.Z) (data : Base.bytes) (t : Node.node), strong_ok ps -> scan_default_with pe_size xortool extra ps kwdir depth data = Base.Ok t -> EngineRefine.map_res Reference.erase (Reference.ref_scan (search_of (search_default_with pe_size xortool extra ps kwdir)) depth data) = Base.Ok t /\ Engine.scan (search_of (search_default_with pe_size xortool extra ps kwdir)) depth data = Base.Ok t.
+Proof. exact default_scan_refines_reference. Qed.
+Print Assumptions C06_shipped_refines.
+
+Theorem C06_shipped_node_refines : forall pe_size : Base.bytes -> BinNums.Z, (forall b : Base.bytes, BinInt.Z.le BinNums.Z0 (pe_size b)) -> forall (xortool : Base.bytes -> list Base.bytes) (extra : Base.label -> option (Base.bytes -> Base.res (list Node.node))) (ps : Base.bytes -> Base.res (list Node.node)) (kwdir : Registry.dtree) (d : nat) (n t : Node.node), strong_ok ps -> scan_node_r (search_default_with pe_size xortool extra ps kwdir) d n = Base.Ok t -> forall (k : Reference.kind) (a b : BinNums.Z), k <> Reference.KCtx -> EngineRefine.map_res Reference.erase (Reference.ref_scan_node (search_of (search_default_with pe_size xortool extra ps kwdir)) d k a b n) = Base.Ok t.
+Proof. exact default_scan_node_refines_reference. Qed.
+Print Assumptions C06_shipped_node_refines.
+
+(* processing order = sorted, stable permutation of the hits the shipped registry reports *)
+Theorem C06_shipped_order : forall (pe_size : Base.bytes -> BinNums.Z) (xortool : Base.bytes -> list Base.bytes) (extra : Base.label -> option (Base.bytes -> Base.res (list Node.node))) (ps : Base.bytes -> Base.res (list Node.node)) (kwdir : Registry.dtree) (d : nat) (n t : Node.node), Node.n_kids n = nil -> scan_node_r (search_default_with pe_size xortool extra ps kwdir) (S d) n = Base.Ok t -> exists (hits : list Node.node) (s : Engine.state), search_default_with pe_size xortool extra ps kwdir (Node.n_val n) = Base.Ok hits /\ Engine.results (search_of (search_default_with pe_size xortool extra ps kwdir)) n = Engine.sort_hits (List.filter Engine.nonempty_val hits) /\ Base.foldM (Engine.step (scan_node_r (search_default_with pe_size xortool extra ps kwdir) d)) (Engine.results (search_of (search_default_with pe_size xortool extra ps kwdir)) n) (Engine.init_state n) = Base.Ok s /\ t = Engine.unwind (Engine.cur s) (Engine.stack s) /\ Permutation.Permutation (Engine.results (search_of (search_default_with pe_size xortool extra ps kwdir)) n) (List.filter Engine.nonempty_val hits) /\ Sorted.StronglySorted SortProofs.hit_leP (Engine.results (search_of (search_default_with pe_size xortool extra ps kwdir)) n) /\ (forall k : Node.node, List.filter (SortProofs.same_key k) (Engine.results (search_of (search_default_with pe_size xortool extra ps kwdir)) n) = List.filter (SortProofs.same_key k) (List.filter Engine.nonempty_val hits)).
+Proof. exact default_scan_order. Qed.
+Print Assumptions C06_shipped_order.
+
+Theorem C06_shipped_registry_concat : forall (pe_size : Base.bytes -> BinNums.Z) (xortool : Base.bytes -> list Base.bytes) (extra : Base.label -> option (Base.bytes -> Base.res (list Node.node))) (ps : Base.bytes -> Base.res (list Node.node)) (kwdir : Registry.dtree) (v : Base.bytes) (hs : list Node.node), search_default_with pe_size xortool extra ps kwdir v = Base.Ok hs -> exists ls : list (list Node.node), List.Forall2 (fun (d : Base.bytes -> Base.res (list Node.node)) (l : list Node.node) => d v = Base.Ok l) (registry_with pe_size xortool extra ps RegistryTable.decoder_modules kwdir nil nil) ls /\ hs = List.concat ls.
+Proof. exact default_search_concat. Qed.
+Print Assumptions C06_shipped_registry_concat.
+
+Theorem C06_noshell_refines : forall pe_size : Base.bytes -> BinNums.Z, (forall b : Base.bytes, BinInt.Z.le BinNums.Z0 (pe_size b)) -> forall (xortool : Base.bytes -> list Base.bytes) (extra : Base.label -> option (Base.bytes -> Base.res (list Node.node))) (kwdir : Registry.dtree) (depth : BinNums.Z) (data : Base.bytes) (t : Node.node), scan_noshell pe_size xortool extra kwdir depth data = Base.Ok t -> EngineRefine.map_res Reference.erase (Reference.ref_scan (search_of (search_noshell pe_size xortool extra kwdir)) depth data) = Base.Ok t /\ Engine.scan (search_of (search_noshell pe_size xortool extra kwdir)) depth data = Base.Ok t.
+Proof. exact noshell_scan_refines_reference. Qed.
+Print Assumptions C06_noshell_refines.
+
+(* scan_default itself, find_powershell_strings included, no hypothesis *)
+Theorem C06_shipped_order_unconditional : forall (pe_size : Base.bytes -> BinNums.Z) (xortool : Base.bytes -> list Base.bytes) (extra : Base.label -> option (Base.bytes -> Base.res (list Node.node))) (kwdir : Registry.dtree) (d : nat) (n t : Node.node), Node.n_kids n = nil -> scan_node_r (search_default pe_size xortool extra RegistryTable.decoder_modules kwdir) (S d) n = Base.Ok t -> exists (hits : list Node.node) (s : Engine.state), search_default pe_size xortool extra RegistryTable.decoder_modules kwdir (Node.n_val n) = Base.Ok hits /\ Engine.results (search_of (search_default pe_size xortool extra RegistryTable.decoder_modules kwdir)) n = Engine.sort_hits (List.filter Engine.nonempty_val hits) /\ Base.foldM (Engine.step (scan_node_r (search_default pe_size xortool extra RegistryTable.decoder_modules kwdir) d)) (Engine.results (search_of (search_default pe_size xortool extra RegistryTable.decoder_modules kwdir)) n) (Engine.init_state n) = Base.Ok s /\ t = Engine.unwind (Engine.cur s) (Engine.stack s) /\ Permutation.Permutation (Engine.results (search_of (search_default pe_size xortool extra RegistryTable.decoder_modules kwdir)) n) (List.filter Engine.nonempty_val hits) /\ Sorted.StronglySorted SortProofs.hit_leP (Engine.results (search_of (search_default pe_size xortool extra RegistryTable.decoder_modules kwdir)) n) /\ (forall k : Node.node, List.filter (SortProofs.same_key k) (Engine.results (search_of (search_default pe_size xortool extra RegistryTable.decoder_modules kwdir)) n) = List.filter (SortProofs.same_key k) (List.filter Engine.nonempty_val hits)).
+Proof. exact shipped_scan_order. Qed.
+Print Assumptions C06_shipped_order_unconditional.
+
+(* END shipped-registry instances *)
